@@ -31,7 +31,7 @@ class Explorer:
         self.stats = dict(paths=0, infeasible=0, cut={}, budget_hit=0, queries=0, solver_s=0.0,
                           unknown_feasibility=0, checks=0, trivial=0, discharged=0, sat=0,
                           inconclusive=0, known_sat=0, skipped_after_cap=0, harness_errors=0,
-                          nontrivial_paths=0, unsupported=0)
+                          nontrivial_paths=0, unsupported=0, extra_cases=0)
         self.worklist = []
         self.t0 = None
         self.candidates = []      # violation candidates (to be replayed)
@@ -168,7 +168,14 @@ class Explorer:
             self.stats["skipped_after_cap"] += 1
         else:
             res, wit = self._query(c, newq)
-            if res == "unsat":
+            if res == "unsat" and listed and newq.is_const and not neg.is_const:
+                # the whole negation lies inside a listed known-finding region: nothing was proved here
+                self.stats["masked_by_known_region"] = self.stats.get("masked_by_known_region", 0) + 1
+                st["masked"] = st.get("masked", 0) + 1
+            elif res == "unsat" and listed and newq.is_const and neg.is_const and neg.value:
+                self.stats["masked_by_known_region"] = self.stats.get("masked_by_known_region", 0) + 1
+                st["masked"] = st.get("masked", 0) + 1
+            elif res == "unsat":
                 self.stats["discharged"] += 1
                 st["discharged"] += 1
             elif res == "sat":
@@ -417,6 +424,9 @@ class ConcreteCtx:
 
     def note(self, k, v):
         self.notes[k] = v
+
+    def case(self, n=1):
+        pass
 
     def array(self, x):
         return self.np.asarray(x, dtype=self.dtype)
